@@ -26,7 +26,8 @@ theorem Trk.anyNotRemovable_iff (ts : List (Trk α S E P)) :
 
 theorem Trk.shouldBeRemoved_iff (d : TrkData α S E P) (children pending : List (Trk α S E P)) :
     Trk.shouldBeRemoved (.node d children pending) = true
-      ↔ d.marked = true ∧ (d.persist = true → d.sounds = []) ∧ ∀ c ∈ children, Trk.shouldBeRemoved c = true := by
+      ↔ d.marked = true ∧ (d.persist = true → d.sounds = [] ∧ d.pendingSounds = [])
+          ∧ ∀ c ∈ children, Trk.shouldBeRemoved c = true := by
   rw [Trk.shouldBeRemoved]
   by_cases hany : Trk.anyNotRemovable children = true
   · simp only [hany, if_true]
